@@ -241,6 +241,369 @@ let run_label (label : string) (fn : func) : string =
         (b01 (guest_export_params_have_allocations fn))
   | _ -> failwith ("label " ^ label)
 
+
+(* ---------- parsing a dump back into events (inverse of the printers above) ---------- *)
+let sx_of_fields (s : string) : sx list =
+  let b = Bytes.of_string s in
+  Bytes.iteri (fun i c -> if c = '[' then Bytes.set b i '(' else if c = ']' then Bytes.set b i ')') b;
+  match parse_sx ("(" ^ Bytes.to_string b ^ ")") with L l -> l | A _ -> []
+let off_of_atom (a : string) : asize =
+  match String.split_on_char '+' a with
+  | [b; p] -> { a_bytes = n_of_int (int_of_string b); a_ptrs = n_of_int (int_of_string p) }
+  | _ -> failwith ("offset " ^ a)
+let align_of_atom a = if a = "ptr" then APtr else ABytes (n_of_int (int_of_string a))
+let wt_of_atom = function
+  | "i32" -> WI32 | "i64" -> WI64 | "f32" -> WF32 | "f64" -> WF64 | "ptr" -> WPtr | "ptr64" -> WPtr64 | "len" -> WLen
+  | s -> failwith ("wt " ^ s)
+let wts_of_sx = function L l -> List.map (function A a -> wt_of_atom a | _ -> failwith "wt") l | A _ -> failwith "wts"
+let rec cast_of_sx = function
+  | A "None" -> BNone | A "F32ToI32" -> BF32ToI32 | A "F64ToI64" -> BF64ToI64 | A "I32ToI64" -> BI32ToI64
+  | A "F32ToI64" -> BF32ToI64 | A "I32ToF32" -> BI32ToF32 | A "I64ToF64" -> BI64ToF64 | A "I64ToI32" -> BI64ToI32
+  | A "I64ToF32" -> BI64ToF32 | A "P64ToI64" -> BP64ToI64 | A "I64ToP64" -> BI64ToP64 | A "P64ToP" -> BP64ToP
+  | A "PToP64" -> BPToP64 | A "I32ToP" -> BI32ToP | A "PToI32" -> BPToI32 | A "PToL" -> BPToL | A "LToP" -> BLToP
+  | A "I32ToL" -> BI32ToL | A "LToI32" -> BLToI32 | A "I64ToL" -> BI64ToL | A "LToI64" -> BLToI64
+  | L [A "Seq"; a; b] -> BSeq (cast_of_sx a, cast_of_sx b)
+  | _ -> failwith "bitcast"
+let tys_of_sx = function L l -> List.map ty_of_sx l | A _ -> failwith "tys"
+let cases_of_sx = function L l -> List.map opt_of_sx l | A _ -> failwith "cases"
+let ios = int_of_string
+let z_of_int i = if i = 0 then Z0 else if i > 0 then Zpos (pos_of_int i) else Zneg (pos_of_int (-i))
+let b_of = function A "1" -> true | _ -> false
+let scalar_of_name = function
+  | "I32FromChar" -> Some I32FromChar | "I64FromU64" -> Some I64FromU64 | "I64FromS64" -> Some I64FromS64
+  | "I32FromU32" -> Some I32FromU32 | "I32FromS32" -> Some I32FromS32 | "I32FromU16" -> Some I32FromU16
+  | "I32FromS16" -> Some I32FromS16 | "I32FromU8" -> Some I32FromU8 | "I32FromS8" -> Some I32FromS8
+  | "CoreF32FromF32" -> Some CoreF32FromF32 | "CoreF64FromF64" -> Some CoreF64FromF64 | "S8FromI32" -> Some S8FromI32
+  | "U8FromI32" -> Some U8FromI32 | "S16FromI32" -> Some S16FromI32 | "U16FromI32" -> Some U16FromI32
+  | "S32FromI32" -> Some S32FromI32 | "U32FromI32" -> Some U32FromI32 | "S64FromI64" -> Some S64FromI64
+  | "U64FromI64" -> Some U64FromI64 | "CharFromI32" -> Some CharFromI32 | "F32FromCoreF32" -> Some F32FromCoreF32
+  | "F64FromCoreF64" -> Some F64FromCoreF64 | "BoolFromI32" -> Some BoolFromI32 | "I32FromBool" -> Some I32FromBool
+  | _ -> None
+let ld_of_name = function
+  | "I32Load" -> Some LI32 | "I32Load8U" -> Some LI32_8U | "I32Load8S" -> Some LI32_8S | "I32Load16U" -> Some LI32_16U
+  | "I32Load16S" -> Some LI32_16S | "I64Load" -> Some LI64 | "F32Load" -> Some LF32 | "F64Load" -> Some LF64
+  | "PointerLoad" -> Some LPtr | "LengthLoad" -> Some LLen | _ -> None
+let st_of_name = function
+  | "I32Store" -> Some SI32 | "I32Store8" -> Some SI32_8 | "I32Store16" -> Some SI32_16 | "I64Store" -> Some SI64
+  | "F32Store" -> Some SF32 | "F64Store" -> Some SF64 | "PointerStore" -> Some SPtr | "LengthStore" -> Some SLen | _ -> None
+let instr_of (name : string) (f : sx list) : instr =
+  match scalar_of_name name, ld_of_name name, st_of_name name with
+  | Some op, _, _ -> Scalar op
+  | _, Some op, _ -> (match f with [A o] -> Load (op, off_of_atom o) | _ -> failwith "load")
+  | _, _, Some op -> (match f with [A o] -> Store (op, off_of_atom o) | _ -> failwith "store")
+  | _ ->
+  match name, f with
+  | "GetArg", [A n] -> GetArg (nat_of_int (ios n))
+  | "I32Const", [A v] -> I32Const (z_of_int (ios v))
+  | "Bitcasts", [L cs] -> Bitcasts (List.map cast_of_sx cs)
+  | "ConstZero", [l] -> ConstZero (wts_of_sx l)
+  | "ListCanonLower", [t; r] -> ListCanonLower (ty_of_sx t, b_of r)
+  | "StringLower", [r] -> StringLower (b_of r)
+  | "ListLower", [t; r] -> ListLower (ty_of_sx t, b_of r)
+  | "ListCanonLift", [t] -> ListCanonLift (ty_of_sx t)
+  | "StringLift", [] -> StringLift
+  | "ListLift", [t] -> ListLift (ty_of_sx t)
+  | "MapLower", [k; v; r] -> MapLower (ty_of_sx k, ty_of_sx v, b_of r)
+  | "MapLift", [k; v] -> MapLift (ty_of_sx k, ty_of_sx v)
+  | "FixedLengthListLift", [t; A n] -> FixedLift (ty_of_sx t, n_of_int (ios n))
+  | "FixedLengthListLower", [t; A n] -> FixedLower (ty_of_sx t, n_of_int (ios n))
+  | "FixedLengthListLowerToMemory", [t; A n] -> FixedLowerToMemory (ty_of_sx t, n_of_int (ios n))
+  | "FixedLengthListLiftFromMemory", [t; A n] -> FixedLiftFromMemory (ty_of_sx t, n_of_int (ios n))
+  | "IterElem", [t] -> IterElem (ty_of_sx t)
+  | "IterMapKey", [t] -> IterMapKey (ty_of_sx t)
+  | "IterMapValue", [t] -> IterMapValue (ty_of_sx t)
+  | "IterBasePointer", [] -> IterBasePointer
+  | "RecordLower", [l] -> RecordLower (tys_of_sx l)
+  | "RecordLift", [l] -> RecordLift (tys_of_sx l)
+  | "HandleLower", [A o] -> HandleLower (o = "own")
+  | "HandleLift", [A o] -> HandleLift (o = "own")
+  | "FutureLower", [p] -> FutureLower (opt_of_sx p)
+  | "FutureLift", [p] -> FutureLift (opt_of_sx p)
+  | "StreamLower", [p] -> StreamLower (opt_of_sx p)
+  | "StreamLift", [p] -> StreamLift (opt_of_sx p)
+  | "ErrorContextLower", [] -> ErrorContextLower
+  | "ErrorContextLift", [] -> ErrorContextLift
+  | "TupleLower", [l] -> TupleLower (tys_of_sx l)
+  | "TupleLift", [l] -> TupleLift (tys_of_sx l)
+  | "FlagsLower", [A n] -> FlagsLower (n_of_int (ios n))
+  | "FlagsLift", [A n] -> FlagsLift (n_of_int (ios n))
+  | "VariantPayloadName", [] -> VariantPayloadName
+  | "VariantLower", [cs; rs] -> VariantLower (cases_of_sx cs, wts_of_sx rs)
+  | "VariantLift", [cs] -> VariantLift (cases_of_sx cs)
+  | "EnumLower", [A n] -> EnumLower (n_of_int (ios n))
+  | "EnumLift", [A n] -> EnumLift (n_of_int (ios n))
+  | "OptionLower", [t; rs] -> OptionLower (ty_of_sx t, wts_of_sx rs)
+  | "OptionLift", [t] -> OptionLift (ty_of_sx t)
+  | "ResultLower", [a; b; rs] -> ResultLower (opt_of_sx a, opt_of_sx b, wts_of_sx rs)
+  | "ResultLift", [a; b] -> ResultLift (opt_of_sx a, opt_of_sx b)
+  | "CallWasm", [ps; rs; i; r] ->
+      CallWasm { s_params = wts_of_sx ps; s_results = wts_of_sx rs; s_indirect = b_of i; s_retptr = b_of r }
+  | "CallInterface", [A n; r; a] -> CallInterface (nat_of_int (ios n), b_of r, b_of a)
+  | "Return", [A n] -> Return (nat_of_int (ios n))
+  | "Malloc", [A s; A a] -> Malloc (off_of_atom s, align_of_atom a)
+  | "GuestDeallocate", [A s; A a] -> GuestDeallocate (off_of_atom s, align_of_atom a)
+  | "GuestDeallocateString", [] -> GuestDeallocateString
+  | "GuestDeallocateList", [t] -> GuestDeallocateList (ty_of_sx t)
+  | "GuestDeallocateMap", [k; v] -> GuestDeallocateMap (ty_of_sx k, ty_of_sx v)
+  | "GuestDeallocateVariant", [A n] -> GuestDeallocateVariant (nat_of_int (ios n))
+  | "DropHandle", [t] -> DropHandle (ty_of_sx t)
+  | "AsyncTaskReturn", [ps] -> AsyncTaskReturn (wts_of_sx ps)
+  | "Flush", [A n] -> Flush (nat_of_int (ios n))
+  | _ -> failwith ("unknown instruction " ^ name)
+let ids_of (s : string) : nat list = List.map (fun x -> nat_of_int (ios x)) (Util.split_ws s)
+let split_on_str (sep : string) (s : string) : string list =
+  let n = String.length sep in
+  let rec go acc start i =
+    if i + n > String.length s then List.rev (String.sub s start (String.length s - start) :: acc)
+    else if String.sub s i n = sep then go (String.sub s start (i - start) :: acc) (i + n) (i + n)
+    else go acc start (i + 1) in
+  go [] 0 0
+(* returns (events, ret ids) *)
+let parse_dump (d : string) : event list * nat list =
+  let parts = split_on_str " ; " d in
+  let ret = ref [] in
+  let evs = List.filter_map (fun p ->
+      if p = "pb" then Some EPushBlock
+      else if String.length p >= 2 && String.sub p 0 2 = "fb" then Some (EFinishBlock (ids_of (String.sub p 2 (String.length p - 2))))
+      else if String.length p >= 3 && String.sub p 0 3 = "rp " then
+        (match Util.split_ws p with
+         | [_; s; a; id] -> Some (ERetPtr (off_of_atom s, align_of_atom a, nat_of_int (ios id)))
+         | _ -> failwith "rp")
+      else if String.length p >= 3 && String.sub p 0 3 = "ret" then (ret := ids_of (String.sub p 3 (String.length p - 3)); None)
+      else if String.length p >= 2 && String.sub p 0 2 = "e " then begin
+        match split_on_str " : " p with
+        | [lhs; rhs] ->
+            let lhs = String.sub lhs 2 (String.length lhs - 2) in
+            let name, fields = (match String.index_opt lhs ' ' with
+                | Some i -> String.sub lhs 0 i, String.sub lhs (i + 1) (String.length lhs - i - 1)
+                | None -> lhs, "") in
+            let ops, res = (match split_on_str "->" rhs with [a; b] -> ids_of a, ids_of b | _ -> failwith "arrow") in
+            Some (EEmit (instr_of name (sx_of_fields fields), ops, res))
+        | _ -> failwith ("event " ^ p)
+      end else failwith ("event? " ^ p)) parts in
+  evs, !ret
+
+(* ---------- random well-typed values ---------- *)
+let rs = ref 1
+let rnd () = rs := (!rs * 1103515245 + 12345) land 0x3fffffff; (!rs lsr 8)
+let rbelow n = if n <= 0 then 0 else rnd () mod n
+let rec n_of_big (hi : int) (lo : int) (lobits : int) : n =      (* hi * 2^lobits + lo, lo < 2^lobits *)
+  let rec shift (x : n) k = if k = 0 then x else shift (match x with N0 -> N0 | Npos p -> Npos (XO p)) (k - 1) in
+  let rec addn (a : n) (b : int) = (* a + b with b small: build via binary of both is overkill; use N.add from model *)
+    N.add a (n_of_int b) in
+  addn (shift (n_of_int hi) lobits) lo
+let rand_bits (bits : int) : n =
+  match rbelow 6 with
+  | 0 -> N0
+  | 1 -> N.sub (N.pow (n_of_int 2) (n_of_int bits)) (n_of_int 1)
+  | 2 -> N.pow (n_of_int 2) (n_of_int (bits - 1))
+  | 3 -> N.sub (N.pow (n_of_int 2) (n_of_int (bits - 1))) (n_of_int 1)
+  | _ -> if bits <= 30 then n_of_int (rbelow (1 lsl bits))
+         else if bits = 32 then n_of_big (rbelow 4) (rbelow (1 lsl 30)) 30
+         else n_of_big (rbelow (1 lsl 30)) (rbelow (1 lsl 30)) 34 |> fun x -> N.add x (n_of_int (rbelow 16))
+let z_of_n = function N0 -> Z0 | Npos p -> Zpos p
+let rand_int (bits : int) (signed : bool) : z =
+  let x = rand_bits bits in
+  if signed then
+    let half = N.pow (n_of_int 2) (n_of_int (bits - 1)) in
+    if N.ltb x half then z_of_n x else Z.sub (z_of_n x) (z_of_n (N.pow (n_of_int 2) (n_of_int bits)))
+  else z_of_n x
+let rand_char () : z =
+  match rbelow 5 with
+  | 0 -> Z0 | 1 -> z_of_int 0xD7FF | 2 -> z_of_int 0xE000 | 3 -> z_of_int 0x10FFFF
+  | _ -> let c = rbelow 0x110000 in z_of_int (if c >= 0xD800 && c < 0xE000 then 65 else c)
+let rand_len () = match rbelow 6 with 0 | 1 -> 0 | 2 | 3 -> 1 | 4 -> 2 | _ -> 3
+let rec rand_val (t : ty) : val0 =
+  match t with
+  | TBool -> VBool (rbelow 2 = 1)
+  | TU8 -> VNum (rand_int 8 false) | TS8 -> VNum (rand_int 8 true)
+  | TU16 -> VNum (rand_int 16 false) | TS16 -> VNum (rand_int 16 true)
+  | TU32 -> VNum (rand_int 32 false) | TS32 -> VNum (rand_int 32 true)
+  | TU64 -> VNum (rand_int 64 false) | TS64 -> VNum (rand_int 64 true)
+  | TF32 -> VFloat (rand_bits 32) | TF64 -> VFloat (rand_bits 64)
+  | TChar -> VNum (rand_char ())
+  | TString -> VStr (List.init (rand_len ()) (fun _ -> n_of_int (rbelow 256)))
+  | TErrCtx | TOwn | TBorrow | TFuture _ | TStream _ -> VNum (z_of_int (1 + rbelow 1000))
+  | TList e -> VList (List.init (rand_len ()) (fun _ -> rand_val e))
+  | TFixed (e, n) -> VList (List.init (int_of_n n) (fun _ -> rand_val e))
+  | TMap (k, v) -> VList (List.init (rand_len ()) (fun _ -> VRec [rand_val k; rand_val v]))
+  | TRecord fs | TTuple fs -> VRec (List.map rand_val fs)
+  | TVariant cs -> let i = rbelow (List.length cs) in
+      VVar (n_of_int i, (match List.nth cs i with Some x -> Some (rand_val x) | None -> None))
+  | TEnum n -> VVar (n_of_int (rbelow (int_of_n n)), None)
+  | TOption x -> if rbelow 2 = 0 then VVar (N0, None) else VVar (n_of_int 1, Some (rand_val x))
+  | TResult (a, b) ->
+      let i = rbelow 2 in
+      let c = if i = 0 then a else b in
+      VVar (n_of_int i, (match c with Some x -> Some (rand_val x) | None -> None))
+  | TFlags n -> VFlags (List.init (int_of_n n) (fun _ -> rbelow 2 = 1))
+let rec show_n (x : n) : string =       (* decimal via repeated division is slow but values are small in reports *)
+  let q, r = N.div_eucl x (n_of_int 1000000) in
+  (match q with N0 -> string_of_int (int_of_n r) | _ -> show_n q ^ Printf.sprintf "%06d" (int_of_n r))
+let show_z = function Z0 -> "0" | Zpos p -> show_n (Npos p) | Zneg p -> "-" ^ show_n (Npos p)
+let rec show_val (v : val0) : string =
+  match v with
+  | VBool b -> if b then "true" else "false"
+  | VNum z -> show_z z
+  | VFloat b -> "f:" ^ show_n b
+  | VStr bs -> "\"" ^ String.concat "," (List.map show_n bs) ^ "\""
+  | VList vs -> "[" ^ String.concat " " (List.map show_val vs) ^ "]"
+  | VRec vs -> "{" ^ String.concat " " (List.map show_val vs) ^ "}"
+  | VVar (i, p) -> "#" ^ show_n i ^ (match p with Some x -> "(" ^ show_val x ^ ")" | None -> "")
+  | VFlags bs -> "<" ^ String.concat "" (List.map (fun b -> if b then "1" else "0") bs) ^ ">"
+
+(* SEM \x1d label \x1d pw \x1d nvalues \x1d seed \x1d sig \x1d dump  ->  "pass=<n> skip=<n>" | "FAIL why=<k> value=<v>" *)
+let run_sem (label : string) (pw : int) (nvals : int) (seed : int) (fn : func) (dump : string) : string =
+  let evs, ret = parse_dump dump in
+  let pwn = n_of_int pw in
+  rs := seed land 0x3fffffff;
+  let pass = ref 0 and skip = ref 0 and fail = ref None in
+  let one (t : ty) (chk : val0 -> verdict) =
+    for _ = 1 to nvals do
+      if !fail = None then begin
+        let v = rand_val t in
+        if not (has_type t v) then fail := Some ("generator produced an ill-typed value " ^ show_val v)
+        else match chk v with
+          | Pass -> incr pass
+          | Skip -> incr skip
+          | Fail k -> fail := Some (Printf.sprintf "why=%d value=%s" (int_of_nat k) (show_val v))
+      end
+    done in
+  (match String.split_on_char '.' label with
+   | ["lower_flat"; k; _] -> let t = nth_type fn (ios k) in one t (fun v -> check_lower_flat pwn t v evs ret)
+   | ["lower_to_memory"; k; _] -> let t = nth_type fn (ios k) in one t (fun v -> check_lower_to_memory pwn t v evs)
+   | ["lift_from_memory"; k; _] -> let t = nth_type fn (ios k) in one t (fun v -> check_lift_from_memory pwn t v evs ret)
+   | ["dealloc"; w; mode; _] ->
+       let t = TTuple fn.f_params in
+       one t (fun v -> check_dealloc pwn t v (w = "own") (mode = "indirect") evs)
+   | ["post_return"; _] ->
+       (match fn.f_result with
+        | Some t -> one t (fun v -> check_post_return pwn t v evs)
+        | None -> ())
+   | _ -> failwith ("sem label " ^ label));
+  match !fail with
+  | Some m -> "FAIL " ^ m
+  | None -> Printf.sprintf "pass=%d skip=%d" !pass !skip
+
+
+(* ---------- SPEC: the canonical-ABI oracle as a service (used by genrun: C05-C08, C10, C11) ----------
+   value syntax (print = parse): true false | <decimal int> | f:<bits> | "b,b,…" | [v …] | {v …} | #i | #i(v) | <0101…>
+   commands (fields separated by \x1d after "SPEC"):
+     gen    <type> <seed> <count>                         -> values separated by \x1e
+     layout <pw> <type>                                   -> size=<n> align=<n> flat=[i32 …]
+     allocs <pw> <type> <value> flat|mem                  -> "size:align size:align …" in allocation order
+     lower  <pw> <type> <value> flat|mem <addr> <presets> -> flat=<bits …>|writes=<addr:hex;…>|next=<n>
+                                                            (presets: addresses realloc returns, in order; empty = bump from <addr>+size)
+     lift   <pw> <type> flat|mem <bits …|addr> <segments addr:hex;…>   -> <value> | TRAP
+     handles <type> <value>                               -> owned handles (own/future/stream) in order *)
+let n_of_dec (s : string) : n =
+  let ten = n_of_int 10 in
+  let r = ref N0 in
+  String.iter (fun c -> r := N.add (N.mul !r ten) (n_of_int (Char.code c - 48))) s; !r
+let z_of_dec (s : string) : z =
+  if String.length s > 0 && s.[0] = '-' then Z.opp (z_of_n (n_of_dec (String.sub s 1 (String.length s - 1))))
+  else z_of_n (n_of_dec s)
+let parse_val (s : string) : val0 =
+  let n = String.length s in
+  let pos = ref 0 in
+  let peek () = if !pos < n then s.[!pos] else '\000' in
+  let rec skip () = if peek () = ' ' then (incr pos; skip ()) in
+  let token () =
+    let st = !pos in
+    while !pos < n && not (List.mem s.[!pos] [' '; ']'; '}'; ')'; '(']) do incr pos done;
+    String.sub s st (!pos - st) in
+  let rec one () : val0 =
+    skip ();
+    match peek () with
+    | '[' -> incr pos; VList (many ']')
+    | '{' -> incr pos; VRec (many '}')
+    | '"' -> incr pos;
+        let st = !pos in
+        while peek () <> '"' do incr pos done;
+        let body = String.sub s st (!pos - st) in
+        incr pos;
+        VStr (if body = "" then [] else List.map n_of_dec (String.split_on_char ',' body))
+    | '<' -> incr pos;
+        let st = !pos in
+        while peek () <> '>' do incr pos done;
+        let body = String.sub s st (!pos - st) in
+        incr pos;
+        VFlags (List.init (String.length body) (fun i -> body.[i] = '1'))
+    | '#' -> incr pos;
+        let i = n_of_dec (token ()) in
+        if peek () = '(' then (incr pos; let v = one () in skip (); incr pos; VVar (i, Some v)) else VVar (i, None)
+    | _ ->
+        let t = token () in
+        if t = "true" then VBool true else if t = "false" then VBool false
+        else if String.length t > 2 && String.sub t 0 2 = "f:" then VFloat (n_of_dec (String.sub t 2 (String.length t - 2)))
+        else VNum (z_of_dec t)
+  and many (close : char) : val0 list =
+    skip ();
+    if peek () = close then (incr pos; []) else let v = one () in v :: many close in
+  one ()
+let hex_of_bytes (bs : int list) = String.concat "" (List.map (Printf.sprintf "%02x") bs)
+let mem_of_segments (segs : string) : n -> n =
+  let tbl = Hashtbl.create 64 in
+  List.iter (fun seg ->
+      if seg <> "" then
+        match String.split_on_char ':' seg with
+        | [a; hex] ->
+            let a = n_of_dec a in
+            for i = 0 to String.length hex / 2 - 1 do
+              Hashtbl.replace tbl (show_n (N.add a (n_of_int i))) (n_of_int (int_of_string ("0x" ^ String.sub hex (2 * i) 2)))
+            done
+        | _ -> failwith "segment") (String.split_on_char ';' segs);
+  fun a -> match Hashtbl.find_opt tbl (show_n a) with Some b -> b | None -> N0
+let dump_range (m : n -> n) (a : n) (size : n) : string =
+  show_n a ^ ":" ^ hex_of_bytes (List.init (int_of_n size) (fun i -> int_of_n (m (N.add a (n_of_int i))) land 255))
+let show_ct = function CI32 -> "i32" | CI64 -> "i64" | CF32 -> "f32" | CF64 -> "f64"
+let run_spec (fields : string list) : string =
+  match fields with
+  | ["gen"; t; seed; count] ->
+      let t = ty_of_sx (parse_sx t) in
+      rs := int_of_string seed land 0x3fffffff;
+      String.concat "\x1e" (List.init (int_of_string count) (fun _ -> show_val (rand_val t)))
+  | ["layout"; pw; t] ->
+      let pw = n_of_int (int_of_string pw) and t = ty_of_sx (parse_sx t) in
+      Printf.sprintf "size=%s align=%s flat=[%s]" (show_n (elem_size pw t)) (show_n (alignment pw t))
+        (String.concat " " (List.map show_ct (flatten pw t)))
+  | ["allocs"; pw; t; v; mode] ->
+      let pw = n_of_int (int_of_string pw) and t = ty_of_sx (parse_sx t) and v = parse_val v in
+      let m0 = mstate0 (n_of_int 65536) in
+      let r = if mode = "flat" then (match lower_flat pw t v m0 with Some (_, m) -> Some m | None -> None)
+        else store pw t v (n_of_int 4096) m0 in
+      (match r with
+       | Some m -> String.concat " " (List.rev_map (fun ((_, sz), al) -> show_n sz ^ ":" ^ show_n al) m.allocs)
+       | None -> "ILL-TYPED")
+  | ["lower"; pw; t; v; mode; addr; presets] ->
+      let pw = n_of_int (int_of_string pw) and t = ty_of_sx (parse_sx t) and v = parse_val v in
+      let addr = n_of_dec addr in
+      let pres = List.map n_of_dec (Util.split_ws presets) in
+      let m0 = { (mstate0 (N.add addr (elem_size pw t))) with presets = pres } in
+      let r = if mode = "flat" then (match lower_flat pw t v m0 with Some (cs, m) -> Some (cs, m) | None -> None)
+        else (match store pw t v addr m0 with Some m -> Some ([], m) | None -> None) in
+      (match r with
+       | Some (cs, m) ->
+           let segs = List.rev_map (fun ((p, sz), _) -> dump_range m.mem p sz) m.allocs in
+           let segs = if mode = "mem" then dump_range m.mem addr (elem_size pw t) :: segs else segs in
+           Printf.sprintf "flat=%s|writes=%s|next=%s" (String.concat " " (List.map (fun (_, x) -> show_n x) cs))
+             (String.concat ";" segs) (show_n m.next)
+       | None -> "ILL-TYPED")
+  | ["lift"; pw; t; mode; src; segs] ->
+      let pw = n_of_int (int_of_string pw) and t = ty_of_sx (parse_sx t) in
+      let m = mem_of_segments segs in
+      let r = if mode = "flat" then
+          (let cts = flatten pw t in
+           let xs = List.map n_of_dec (Util.split_ws src) in
+           if List.length xs <> List.length cts then None
+           else match lift_flat pw t m (List.combine cts xs) with Some (v, _) -> Some v | None -> None)
+        else load pw t m (n_of_dec src) in
+      (match r with Some v -> show_val v | None -> "TRAP")
+  | ["handles"; t; v] ->
+      let t = ty_of_sx (parse_sx t) and v = parse_val v in
+      String.concat " " (List.map show_z (owned_handles t v))
+  | _ -> "BAD-SPEC-COMMAND"
+
 let () =
   Util.iter_lines (fun l ->
       match String.index_opt l '\x1d' with
@@ -249,6 +612,13 @@ let () =
           let label = String.sub l 0 i in
           let sx = String.sub l (i + 1) (String.length l - i - 1) in
           match String.split_on_char '.' label with
+          | ["SEM"] ->
+              (match String.split_on_char '\x1d' sx with
+               | [lab; pw; nv; seed; sg; dump] ->
+                   run_sem lab (int_of_string pw) (int_of_string nv) (int_of_string seed) (func_of_sx (parse_sx sg)) dump
+               | _ -> "BAD-SEM-INPUT")
+          | ["SPEC"] -> run_spec (String.split_on_char '\x1d' sx)
+          | ["HEAP"] -> b01 (match (func_of_sx (parse_sx sx)).f_result with Some t -> has_heap t | None -> false)
           | ["cast"; a; b] ->
               let wt_of = function "i32" -> WI32 | "i64" -> WI64 | "f32" -> WF32 | "f64" -> WF64 | "ptr" -> WPtr
                                    | "ptr64" -> WPtr64 | "len" -> WLen | s -> failwith s in
